@@ -59,6 +59,11 @@ pub fn take() -> Vec<Ev> {
     std::mem::take(&mut *EVENTS.lock().unwrap_or_else(|e| e.into_inner()))
 }
 
+/// Look at the events collected so far without taking them.
+pub fn peek<R>(f: impl FnOnce(&[Ev]) -> R) -> R {
+    alloc::untracked(|| f(&EVENTS.lock().unwrap_or_else(|e| e.into_inner())))
+}
+
 pub fn clear() {
     EVENTS.lock().unwrap_or_else(|e| e.into_inner()).clear();
 }
